@@ -32,6 +32,7 @@ _sum_cache = {}
 _sum_lock = threading.Lock()
 _matrix = {}
 _runs = [0]
+_want_samples = {"empty/statement-error", "empty/ok", "nonempty/refused-not-clean", "internal/ok"}
 
 
 def bump_matrix(*k):
@@ -342,7 +343,11 @@ def run_case(c, verbose=False):
     bump_matrix(cmd, c["dev"], pc)
     first_err = norm_msg((err.strip().splitlines() or [""])[0])
     ctx.eval(digest(cmd, c["dev"], kind, pc, oc, first_err, [m[:2] for m in after["master"]], dd), True)
-    if not viol:
+    skey = devcls + "/" + oc
+    with ctx.lock:
+        take = skey in _want_samples and not viol
+        _want_samples.discard(skey) if take else None
+    if take:
         ctx.sample({"cmd": " ".join(args[:2]), "case": {k: c.get(k) for k in ("cmd", "dev", "story", "fail", "txnone", "fk", "sum", "ckpt")},
                     "rc": rc, "outcome": oc, "stderr": norm_msg(err), "dev_before": [m[:2] for m in before["master"]],
                     "dev_after": [m[:2] for m in after["master"]], "dev_bytes_identical": same_bytes, "dir_delta": dd}, cap=6)
